@@ -14,6 +14,7 @@ from dst.core import Result, hx, unhx
 from dst.storage.simfile import Budget, IoSeam, ReadBudgetExceeded
 
 ID = "C15"
+MEM_LIMIT_GB = 3     # address-space limit of the processes executing runs (see run.py _Guarded)
 RUN_WALL_S = 90    # per-run wall-clock alarm for loops that perform no I/O (see core.guarded)
 LEVEL = "exploration"
 RUNS = {"quick": 1000000, "thorough": 6000000}
